@@ -305,6 +305,15 @@ def run(repo: Repo, rep: Report) -> None:
             rep.finding("ALG-4D", GRAPH, "division_connected_variable_groups", "shape form", f"shape=(2, 3) returns {getattr(ret, 'attrs', {}).get('__class__')} {getattr(ret, 'attrs', {}).get('shape')}")
     except (Undecided, Raised, IndexOutOfRange) as ex:
         rep.undecide("ALG-4D", f"shape form: {ex}")
+    from .encodings import history_rule
+    calls = []
+    for gname, n, edges in (("path of 3", 3, [(0, 1), (1, 2)]), ("triangle", 3, [(0, 1), (1, 2), (0, 2)]), ("star of 4", 4, [(0, 1), (0, 2), (0, 3)])):
+        calls.append((f"graph '{gname}', size 2", lambda inst, n=n, edges=edges: inst.w.call("division_connected_variable_groups", inst.s, graph=inst.w.graph(n, edges), group_size=2)))
+        calls.append((f"graph '{gname}' with borders", lambda inst, n=n, edges=edges: inst.w.call(
+            "division_connected_variable_groups_with_borders", inst.s, group_size=[None] * n, is_border=inst.user_bools(len(edges), "B"), graph=inst.w.graph(n, edges))))
+    for h, w in ((2, 3), (3, 2), (1, 3)):
+        calls.append((f"shape=({h}, {w})", lambda inst, h=h, w=w: inst.w.call("division_connected_variable_groups", inst.s, shape=(h, w))))
+    history_rule(repo, rep, "division_connected_variable_groups", calls)
     c20.check_gating(repo, rep)
     graphnative.check_native_layout(repo, rep)
     rep.assume("reference schema exact (DESIGN.md C07); uniform in the graph; native graph-division has its documented meaning")
